@@ -10,8 +10,16 @@ import (
 	dsig "github.com/russellhaering/goxmldsig"
 )
 
-func verifSigningContext(id int) *dsig.SigningContext {
-	ctx, err := dsig.NewSigningContext(verifTestSigner(0, id), [][]byte{verifTestCert(0, id).Raw})
+func verifSigningContext(id int, keyInfo int) *dsig.SigningContext {
+	me, other := verifTestCert(0, id).Raw, verifTestCert(0, 1-id).Raw
+	certs := [][]byte{me}
+	switch keyInfo {
+	case 2:
+		certs = [][]byte{me, other}
+	case 3:
+		certs = [][]byte{other, me}
+	}
+	ctx, err := dsig.NewSigningContext(verifTestSigner(0, id), certs)
 	if err != nil {
 		panic(err)
 	}
@@ -22,12 +30,23 @@ func verifSigningContext(id int) *dsig.SigningContext {
 	return ctx
 }
 
-func verifSignatureOf(el *etree.Element, sign int) *etree.Element {
-	signed, err := verifSigningContext(sign - 1).SignEnveloped(el)
+func verifSignatureOf(el *etree.Element, sign int, keyInfo ...int) *etree.Element {
+	ki := 0
+	if len(keyInfo) > 0 {
+		ki = keyInfo[0]
+	}
+	signed, err := verifSigningContext(sign-1, ki).SignEnveloped(el)
 	if err != nil {
 		panic(err)
 	}
-	return signed.Child[len(signed.Child)-1].(*etree.Element)
+	sig := signed.Child[len(signed.Child)-1].(*etree.Element)
+	if ki == 1 {
+		// KeyInfo is not covered by the signature: drop it
+		if k := sig.FindElement("./KeyInfo"); k != nil {
+			sig.RemoveChild(k)
+		}
+	}
+	return sig
 }
 
 func verifMaterialise(d *verifDoc) []byte {
@@ -40,7 +59,7 @@ func verifMaterialise(d *verifDoc) []byte {
 			a := *d.Assertions[i].A
 			a.Signature = nil
 			if d.Assertions[i].Sign != 0 {
-				a.Signature = verifSignatureOf(a.Element(), d.Assertions[i].Sign)
+				a.Signature = verifSignatureOf(a.Element(), d.Assertions[i].Sign, d.Assertions[i].KeyInfo)
 			}
 			el.AddChild(a.Element())
 		}
@@ -48,7 +67,7 @@ func verifMaterialise(d *verifDoc) []byte {
 	}
 	el := build()
 	if d.SignResponse != 0 {
-		r.Signature = verifSignatureOf(el, d.SignResponse)
+		r.Signature = verifSignatureOf(el, d.SignResponse, d.KeyInfo)
 		el = build()
 	}
 	doc := etree.NewDocument()
